@@ -89,6 +89,19 @@ def run(ctx):
                 break
         if a is not None and a != impl:
             ctx.mismatch("dedup", dict(patterns=[enc(p) for p in ps]), a, impl)
+    # 3. the same through the API: register_indication_listeners + frame_received of a real ZBOSS
+    from props import c12
+    multi = [ps for ps in colls if len(ps) >= 2]
+    for ps in r.sample(multi, min(len(multi), ctx.scale(120, 1500))):
+        outs = c12.run_history([("B", 1, ps)] + [("R", c) for c in allc], classes)[1:]
+        ctx.case(("api", tuple(enc(p) for p in ps)), sample=dict(patterns=[enc(p) for p in ps], via="ZBOSS.register_indication_listeners"))
+        ctx.count("api-listener-size=%d" % min(len(ps), 8))
+        for c, o in zip(allc, outs):
+            want = ["c1=" + enc(c)] if any(cmduniv.spec_matches(p, c) for p in ps) else []
+            if o != want:
+                ctx.counterexample("api-listener-set", dict(patterns=[enc(p) for p in ps], command=enc(c)), want, o,
+                                   "a listener registered through the API does not react exactly once to exactly the matched commands")
+                break
 
 
 def search(ctx):
